@@ -351,7 +351,7 @@ _idx = st.integers(-6, 6)
 @st.composite
 def _olist_programs(draw):
     ops = []
-    for _ in range(draw(st.integers(1, 14))):
+    for _ in range(draw(st.integers(3, 14))):
         op = draw(st.sampled_from(["append", "append", "append_existing", "insert", "insert", "remove", "pop", "setitem", "setslice", "delslice", "delitem",
                                    "extend", "iadd", "clear", "assign", "sort", "reverse", "reorder", "flush", "reload"]))
         pi = draw(st.integers(0, 1))
@@ -633,7 +633,7 @@ def check_proxy_list(case, ctx):
 def _plist_programs(draw):
     ops = []
     vi = st.integers(0, 4)
-    for _ in range(draw(st.integers(1, 14))):
+    for _ in range(draw(st.integers(3, 14))):
         op = draw(st.sampled_from(["append", "append", "insert", "remove", "pop", "pop0", "setitem", "setslice", "setslice", "setslice_step", "delslice", "delitem",
                                    "extend", "iadd", "imul", "clear", "assign", "reads", "reads", "sortreverse", "flush", "reload"]))
         if op in ("setslice", "delslice", "setslice_step"):
@@ -769,7 +769,7 @@ def check_proxy_set(case, ctx):
 def _pset_programs(draw):
     vi = st.integers(0, 4)
     ops = []
-    for _ in range(draw(st.integers(1, 14))):
+    for _ in range(draw(st.integers(3, 14))):
         op = draw(st.sampled_from(["add", "add", "remove", "discard", "pop", "clear", "update", "difference_update", "intersection_update",
                                    "symmetric_difference_update", "symmetric_difference_update", "ior", "iand", "isub", "ixor", "ixor", "assign", "reads", "reads", "flush", "reload"]))
         ops.append([op, draw(vi), draw(st.lists(vi, max_size=4)), draw(st.sampled_from(["list", "set", "frozenset", "tuple"]))])
@@ -905,7 +905,7 @@ def check_proxy_dict(case, ctx):
 def _pdict_programs(draw):
     ki, vi = st.integers(0, 4), st.integers(0, 9)
     ops = []
-    for _ in range(draw(st.integers(1, 14))):
+    for _ in range(draw(st.integers(3, 14))):
         op = draw(st.sampled_from(["setitem", "setitem", "delitem", "pop", "pop_default", "popitem", "setdefault", "update", "update", "clear", "assign", "reads", "reads", "flush", "reload"]))
         ops.append([op, draw(ki), draw(vi), draw(st.lists(st.tuples(ki, vi).map(list), max_size=4)), draw(st.sampled_from(["dict", "pairs", "kw"]))])
     return {"init": draw(st.lists(st.tuples(ki, vi).map(list), max_size=4)), "ops": ops}
@@ -976,9 +976,9 @@ def _pscalar_programs(draw):
 
 def subs(tier):
     return [
-        Generated("olist", check_olist, strategy=_olist_programs(), quick=400, thorough=30000),
-        Generated("proxy_list", check_proxy_list, strategy=_plist_programs(), quick=300, thorough=20000),
-        Generated("proxy_set", check_proxy_set, strategy=_pset_programs(), quick=250, thorough=15000),
-        Generated("proxy_dict", check_proxy_dict, strategy=_pdict_programs(), quick=250, thorough=15000),
+        Generated("olist", check_olist, strategy=_olist_programs(), quick=600, thorough=30000),
+        Generated("proxy_list", check_proxy_list, strategy=_plist_programs(), quick=400, thorough=20000),
+        Generated("proxy_set", check_proxy_set, strategy=_pset_programs(), quick=300, thorough=15000),
+        Generated("proxy_dict", check_proxy_dict, strategy=_pdict_programs(), quick=300, thorough=15000),
         Generated("proxy_scalar", check_proxy_scalar, strategy=_pscalar_programs(), quick=100, thorough=5000),
     ]
